@@ -4,7 +4,7 @@
    decide_repack; the statement list of `apply`, every validation condition, every arithmetic
    expression and all constants are regenerated from the source into Extracted.v on every run. *)
 From Verif.Base Require Import Tactics.
-From Verif.C18 Require Import ModelBase Extracted Model Proofs Proofs2 History Examples.
+From Verif.C18 Require Import ModelBase Extracted Model Proofs Proofs2 Proofs3 History Examples.
 Local Open Scope Z_scope.
 
 (* A configuration change alters only the settings it names: a field none of whose options is
@@ -48,32 +48,78 @@ Theorem apply_version_allowed : forall o c c' v,
 Proof. exact apply_version_allowed_lemma. Qed.
 Print Assumptions apply_version_allowed.
 
-(* A refused (or no-op) change writes no configuration file and leaves repo.config() as it was. *)
-Theorem apply_error_no_change : forall o s w s' r,
-  apply_config o s = (w, s', r) -> r <> RChanged -> w = [] /\ s' = s.
+(* A refused (or no-op) change leaves the stored files and repo.config() as they were. *)
+Theorem apply_error_no_change : forall hot o mem st st' mem' r,
+  apply_config hot o mem st = (st', mem', r) -> r <> RChanged -> st' = st /\ mem' = mem.
 Proof. exact apply_config_refused_lemma. Qed.
 Print Assumptions apply_error_no_change.
 
-(* An effective change writes exactly one file: the accepted configuration. *)
-Theorem apply_config_atomic : forall o s w s',
-  apply_config o s = (w, s', RChanged) ->
-  apply o s = Some s' /\ w = [upd s' C_is_hot None] /\ config_eqb s' s = false.
+(* An effective change saves exactly the accepted configuration (through save_config). *)
+Theorem apply_config_atomic : forall hot o mem st st' mem',
+  apply_config hot o mem st = (st', mem', RChanged) ->
+  apply o mem = Some mem' /\ st' = save_config hot mem' st /\ config_eqb mem' mem = false.
 Proof. exact apply_config_changed_lemma. Qed.
 Print Assumptions apply_config_atomic.
 
-(* Every file any sequence of changes writes is an accepted configuration. *)
-Theorem apply_configs_write_only_accepted : forall l s f,
-  In f (fst (apply_configs l s)) ->
-  exists o s0 new, apply o s0 = Some new /\ f = upd new C_is_hot None.
-Proof. exact apply_configs_writes_accepted. Qed.
-Print Assumptions apply_configs_write_only_accepted.
-
 (* Append-only repositories refuse every change that does not switch append-only off. *)
-Theorem apply_config_append_only : forall o s,
-  s C_append_only = Some 1 -> o O_set_append_only <> Some 0 ->
-  apply_config o s = ([], s, RRefused E_APPEND_ONLY).
+Theorem apply_config_append_only : forall hot o mem st,
+  mem C_append_only = Some 1 -> o O_set_append_only <> Some 0 ->
+  apply_config hot o mem st = (st, mem, RRefused E_APPEND_ONLY).
 Proof. exact apply_config_append_only_lemma. Qed.
 Print Assumptions apply_config_append_only.
+
+(* WHAT IS STORED.  save_config, as the source has it now, writes the cold file without the hot
+   marker and (hot/cold repositories) the hot copy with it. *)
+Theorem save_config_stores_cold_unmarked_hot_marked : forall hot c st,
+  (exists sc, st_cold (save_config hot c st) = Some sc /\ forall g, sc g = upd c C_is_hot None g) /\
+  (if hot
+   then exists sh, st_hot (save_config hot c st) = Some sh /\ forall g, sh g = upd c C_is_hot (Some 1) g
+   else st_hot (save_config hot c st) = st_hot st).
+Proof. exact save_config_spec. Qed.
+Print Assumptions save_config_stores_cold_unmarked_hot_marked.
+
+(* Repository::init (plain and hot/cold): the stored files agree with the config of the
+   repository it returns, and open_raw accepts that config. *)
+Theorem init_store_ok : forall hot o id poly st mem,
+  init_repo hot o id poly = (st, mem, Done) -> store_ok hot mem st /\ open_raw_ok mem hot = true.
+Proof. exact init_store_ok_lemma. Qed.
+Print Assumptions init_store_ok.
+
+(* apply_config keeps the stored files in agreement with repo.config(). *)
+Theorem apply_config_store_ok : forall hot o mem st st' mem' r,
+  store_ok hot mem st -> apply_config hot o mem st = (st', mem', r) -> store_ok hot mem' st'.
+Proof. exact apply_config_store_ok_lemma. Qed.
+Print Assumptions apply_config_store_ok.
+
+(* Frame property for the STORED files (plain: the one config file; hot/cold: cold file and hot
+   copy): a field none of whose options is given is stored as before, whatever the result. *)
+Theorem stored_frame : forall hot o mem st st' mem' r g,
+  store_ok hot mem st -> apply_config hot o mem st = (st', mem', r) ->
+  (forall f, In (f, g) (writes apply_steps) -> o f = None) ->
+  stored_field (st_cold st') g = stored_field (st_cold st) g /\
+  stored_field (st_hot st') g = stored_field (st_hot st) g.
+Proof. exact stored_frame_lemma. Qed.
+Print Assumptions stored_frame.
+
+(* ... and a named setting of an effective change is what both stored files say. *)
+Theorem stored_named : forall hot o mem st st' mem' f g v,
+  store_ok hot mem st -> apply_config hot o mem st = (st', mem', RChanged) ->
+  In (f, g) (writes apply_steps) -> o f = Some v ->
+  stored_field (st_cold st') g = Some v /\ (hot = true -> stored_field (st_hot st') g = Some v).
+Proof. exact stored_named_lemma. Qed.
+Print Assumptions stored_named.
+
+(* After init and any sequence of configuration changes the repository can be opened in every
+   way (both parts; the cold part alone - the only way for a plain repository; open_only_cold):
+   open_raw's is_hot check passes and the settings seen are the current ones. *)
+Theorem history_reopens : forall hot o id poly l st0 mem0 st mem h,
+  init_repo hot o id poly = (st0, mem0, Done) -> apply_configs hot l mem0 st0 = (st, mem) ->
+  (how_has_hot h = true -> hot = true) ->
+  store_ok hot mem st /\
+  exists c, open_config h st = Some c /\ open_raw_ok c (how_has_hot h) = true /\
+            forall g, g <> C_is_hot -> c g = mem g.
+Proof. exact history_store_ok_lemma. Qed.
+Print Assumptions history_reopens.
 
 (* Accepted values are values of the Rust types of the fields they are stored in. *)
 Theorem apply_preserves_wf : forall o c c',
